@@ -86,7 +86,7 @@ func checkC07(c *Ctx) {
 			pr(bin("?:", vr("extra"), S(""))), pr(bin("?:", vr("zz"), S(""))), {K: "let", Var: "w", E: I(1)}, pr(vr("w")), {K: "foreach", Var: "x", E: &E{K: "list"}, Body: []*Cmd{pr(vr("x"))}},
 		}}
 		main := &File{Name: "main.soy", NS: "app.main", Aliases: []string{"lib.deep"}, Tmpls: []*Tmpl{warm, t}}
-		files := []*File{main, lib[0]}
+		files := withLib(main, lib)
 		rules := checkRules(files)
 		if rules["ambiguous-param-use"] {
 			c.Count("ambiguous_skipped", 1)
@@ -103,7 +103,10 @@ func checkC07(c *Ctx) {
 		var compileErr string
 		var unbound []string
 		v := vrt.Run(vrt.Options{Fuel: 2000000}, func() {
-			b := soy.NewBundle().AddTemplateString("main.soy", main.src()).AddTemplateString("lib.soy", lib[0].src())
+			b := soy.NewBundle().AddTemplateString("main.soy", main.src())
+			for _, lf := range lib {
+				b = b.AddTemplateString(lf.Name, lf.src())
+			}
 			tofu, err := b.CompileToTofu()
 			if err != nil {
 				compileErr = err.Error()
@@ -203,7 +206,7 @@ func checkC07(c *Ctx) {
 		//     use before let, loop variable outside its loop, shadowed params ...)
 		one(body, params, variant, "none", 0)
 		// mutations at every applicable site; applied to every 3rd body in the quick tier to bound the cost
-		if !c.Thorough() && seenBodies%6 != 0 {
+		if !c.Thorough() && seenBodies%7 != 0 {
 			return
 		}
 		// (1) unused param
